@@ -1,4 +1,5 @@
 import Syzgy.Lemmas.Scan
+import Syzgy.Lemmas.Crash
 /-!
 # C07 — crash between storage steps
 
@@ -42,5 +43,58 @@ theorem free_superseded_effect (file : Bytes) (acc : ScanAcc) (off len : Nat) (h
     freeSuperseded file false acc off =
       { acc with patches := acc.patches ++ [(off, be32 freeMagic)], free := markFree acc.free off len } := by
   simp [freeSuperseded, h]
+
+/-- **Crash at any storage step of a write, in any reachable state.** Let a state be reached from a state
+    satisfying the invariants by any operation sequence. For the next `WriteRecord` — fresh id or
+    overwrite, into free space or with file growth — and for each of its crash images (the file after
+    `grow`, after `writeAt`, after `markFreed`): a writable open of the image succeeds, the recovered
+    state satisfies the representation invariant (gap-free chain of checksummed segments, every id
+    active at most once — no zombie —, index and free map exact), and the recovered store is the store
+    before the write or the store after it. The written document therefore has its old or its new
+    content and every other document is untouched. (`FitsAllW`: the format's 32-bit limits, and the
+    32-bit sequence counter does not wrap.) -/
+theorem crash_at_any_step_of_any_write (ops : List Op) (s : SF) (segs : List Seg) (h : Rep s segs)
+    (hseq : SeqBelow s.seq segs) (hf : FitsAllW s ops) (rid : Bytes) (st : List Stream)
+    (hfit : Fits (ops.foldl applyOp s) (.write rid st)) :
+    ∃ m, writeRecord (ops.foldl applyOp s) rid st = .ok m ∧
+      ∀ img ∈ m.images, ∃ s' segs', scanFile img.2 false = .ok s' ∧ Rep s' segs' ∧
+        ((∀ r, docOf r segs' = ops.foldl specStep (fun r => docOf r segs) r) ∨
+         (∀ r, docOf r segs' = (ops ++ [Op.write rid st]).foldl specStep (fun r => docOf r segs) r)) :=
+  crash_after_any_history ops s segs h hseq hf rid st hfit
+
+/-- the same for one write from a state that satisfies the invariants, and for a removal (whose only
+    storage step is its last) -/
+theorem crash_during_write (s : SF) (segs : List Seg) (h : Rep s segs) (hseq : SeqBelow s.seq segs)
+    (rid : Bytes) (st : List Stream) (hnew : NewOK s.seq rid st)
+    (hbig : s.file.length + expandBy s.file.length (Seg.act s.seq rid st 0).size < 4294967296) :
+    ∃ m, writeRecord s rid st = .ok m ∧
+      ∀ img ∈ m.images, ∃ s' segs', scanFile img.2 false = .ok s' ∧ Rep s' segs' ∧
+        ((∀ r, docOf r segs' = docOf r segs) ∨ (∀ r, docOf r segs' = if r = rid then some st else docOf r segs)) :=
+  write_crash_safe s segs h hseq rid st hnew hbig
+
+theorem crash_during_remove (s : SF) (segs : List Seg) (h : Rep s segs) (rid : Bytes) (hd : docOf rid segs ≠ none) :
+    ∃ m, removeRecord s rid = .ok m ∧
+      ∀ img ∈ m.images, ∃ s' segs', scanFile img.2 false = .ok s' ∧ Rep s' segs' ∧
+        (∀ r, docOf r segs' = if r = rid then none else docOf r segs) :=
+  remove_crash_safe s segs h rid hd
+
+/-- both versions active (the image after `writeAt` of an overwrite): recovery keeps the one with the higher
+    sequence number wherever it lies in the file, releases the other, and the result is exactly the file
+    the completed operation would have left -/
+theorem recovery_keeps_newer (P Q T : List Seg) (sa sb : Nat) (rid : Bytes) (sta stb : List Stream) (pa pb : Nat)
+    (hok : ∀ x ∈ P ++ .act sa rid sta pa :: Q ++ .act sb rid stb pb :: T, x.OK)
+    (hnd : (actRids (P ++ Q ++ T)).Nodup) (hrid : rid ∉ actRids (P ++ Q ++ T)) :
+    (sb > sa → ∃ s', scanFile (render (P ++ .act sa rid sta pa :: Q ++ .act sb rid stb pb :: T)) false = .ok s' ∧
+      s'.file = render (P ++ .free (actJunk sa rid sta pa) :: Q ++ .act sb rid stb pb :: T) ∧
+      Rep s' (P ++ .free (actJunk sa rid sta pa) :: Q ++ .act sb rid stb pb :: T)) ∧
+    (¬ sb > sa → ∃ s', scanFile (render (P ++ .act sa rid sta pa :: Q ++ .act sb rid stb pb :: T)) false = .ok s' ∧
+      s'.file = render (P ++ .act sa rid sta pa :: Q ++ .free (actJunk sb rid stb pb) :: T) ∧
+      Rep s' (P ++ .act sa rid sta pa :: Q ++ .free (actJunk sb rid stb pb) :: T)) :=
+  ⟨recover_second_wins P Q T sa sb rid sta stb pa pb hok hnd hrid, recover_first_wins P Q T sa sb rid sta stb pa pb hok hnd hrid⟩
+
+/-- the invariants hold in a newly created file, so the theorems above apply to every history that
+    starts with creation -/
+theorem new_file_invariants : ∃ s0, openFile none .createIfNotExists = .ok s0 ∧ Rep s0 [.act 0 [] [] 0] ∧
+    SeqBelow s0.seq [.act 0 [] [] 0] := init_seqBelow
 
 end Syzgy.C07
